@@ -86,7 +86,7 @@ def register(R):
         return And(
             r.len() == a.vs.len(),
             # same vehicles (each result element is an input element; ids stay pairwise distinct)
-            forall([i], Implies(And(i >= 0, i < r.len()), exists([j], And(j >= 0, j < a.vs.len(), at(r, i) == at(a.vs, j))))),
+            forall([i], Implies(And(i >= 0, i < r.len()), seq_mem(a.vs, at(r, i)))),
             forall([i, j], Implies(And(i >= 0, i < j, j < r.len()), at(r, i).id != at(r, j).id)))
     s.ensures("same_vehicles", sort_post, ("C01", "C02", "C18"))
 
